@@ -28,6 +28,7 @@ func init() {
 }
 
 var c17hist = map[string]map[string]int{}
+var c17used *mono.MonoImg
 
 func c17count(k, v string) {
 	m, ok := c17hist[k]
@@ -65,6 +66,14 @@ func c17guard(f func() Sx) (res Sx) {
 const c17leave = 1000
 
 func c17monoStep(m *mono.MonoImg, W, H int, data []byte, pc, bc int) (obs []Sx) {
+	return c17monoStepBack(m, nil, nil, W, H, data, pc, bc)
+}
+
+// backF / backT: the objects that receive CreateFromImage(imgF / imgT); nil = a fresh object each time.
+// In a history they are REUSED from step to step, so that they already hold a bitmap (possibly a larger
+// one, possibly all set) when the next image is loaded into them (seed C17-8: a buffer re-sliced instead
+// of allocated keeps the old bits, the conversion ORs the new ones in).
+func c17monoStepBack(m, backF, backT *mono.MonoImg, W, H int, data []byte, pc, bc int) (obs []Sx) {
 	defer func() {
 		if r := recover(); r != nil {
 			obs = []Sx{Sym("panic")}
@@ -82,14 +91,16 @@ func c17monoStep(m *mono.MonoImg, W, H int, data []byte, pc, bc int) (obs []Sx) 
 	gray := append([]byte{}, m.GetImgSliceGray()...)
 	imgF := m.ConvertToImage(false)
 	imgT := m.ConvertToImage(true)
-	back := func(src image.Image) Sx {
+	back := func(b *mono.MonoImg, src image.Image) Sx {
 		return c17guard(func() Sx {
-			b := &mono.MonoImg{}
+			if b == nil {
+				b = &mono.MonoImg{}
+			}
 			b.CreateFromImage(src)
 			return L(b.Width, b.Height, append([]byte{}, b.GetImgSlice()...))
 		})
 	}
-	return []Sx{err == nil, int(m.OLEDPixelColor), int(m.OLEDBckgColor), buf, rgb, gray, c17pix(imgF), c17pix(imgT), back(imgF), back(imgT)}
+	return []Sx{err == nil, int(m.OLEDPixelColor), int(m.OLEDBckgColor), buf, rgb, gray, c17pix(imgF), c17pix(imgT), back(backF, imgF), back(backT, imgT)}
 }
 
 // ---- (mono W H #data pc bc | ...) ----
@@ -110,10 +121,13 @@ type c17step struct {
 
 func c17monoh(steps []c17step) {
 	m := &mono.MonoImg{}
+	backF, backT := &mono.MonoImg{}, &mono.MonoImg{}
+	backT.NewImage(40, 12) // starts out holding a larger, fully set bitmap
+	backT.FillRect(0, 0, 40, 12, true)
 	var sx, obs []Sx
 	for _, st := range steps {
 		sx = append(sx, Sx(L(st.W, st.H, st.data, st.pc, st.bc)))
-		obs = append(obs, Sx(c17monoStep(m, st.W, st.H, st.data, st.pc, st.bc)))
+		obs = append(obs, Sx(c17monoStepBack(m, backF, backT, st.W, st.H, st.data, st.pc, st.bc)))
 	}
 	emit(L(Sym("monoh"), sx, obs))
 }
@@ -172,8 +186,12 @@ func c17fromimg(W, H int, pix []byte) {
 	src := image.NewRGBA(image.Rect(0, 0, W, H))
 	copy(src.Pix, pix)
 	obs := c17guard(func() Sx {
-		b := &mono.MonoImg{}
+		b := c17used // an object that was used before: CreateFromImage must not depend on what it held
+		if b == nil || W*H%3 == 0 {
+			b = &mono.MonoImg{}
+		}
 		b.CreateFromImage(src)
+		c17used = b
 		return L(b.Width, b.Height, append([]byte{}, b.GetImgSlice()...))
 	})
 	if l, ok := obs.([]Sx); ok {
